@@ -12,3 +12,16 @@ Theorem C16_reject_no_effect : forall nxt c now removed added,
   /\ cr_started c' = cr_started c.
 Proof. exact edit_rejected_no_effect. Qed.
 Print Assumptions C16_reject_no_effect.
+
+(* ---- accepted edits (Proofs/CronInv.v) ---- *)
+From GK.Proofs Require Import CronInv.
+
+(* an accepted edit: (i) entries that are neither removed nor added keep their pending task, their table row
+   and their cursor; (ii) nothing of a removed identity survives unless that identity was added again;
+   (iii) every added entry is in the table, its cursor has moved by exactly one occurrence and its pending
+   task is made from that FIRST occurrence; (iv) no other cursor moves; and the invariant of C15 still holds *)
+Theorem C16_apply_complete : forall nxt c now removed added c',
+  Inv15 nxt c -> edit nxt c now removed added = (c', true) ->
+  edit_effect nxt c c' removed added /\ Inv15 nxt c'.
+Proof. exact edit_accepted. Qed.
+Print Assumptions C16_apply_complete.
